@@ -33,8 +33,9 @@ class Rec:
         n = sum(1 for c in self.calls if c[0] == "predict")
         a = actions[n % len(actions)]
         if self.fmt == "AP": out = (a, 0.5)
+        elif self.fmt == "AP0": out = (a, 0.0 if n % 3 == 0 else 0.5)      # a learner that reports probability 0 now and then
         else: out = a
-        if self.kw: out = (out + ({"k": n},)) if isinstance(out, tuple) else (out, {"k": n})
+        if self.kw: out = (out + ({"k": n},)) if self.fmt != "A" else (out, {"k": n})      # (an action may itself be a tuple)
         return out
     def learn(self, context, action, reward, probability, **kw):
         from coba.primitives import is_batch
@@ -54,8 +55,13 @@ def gen_env(rng, fields):
     # action sets: fresh per interaction, or drawn from a small pool so that a set comes back after a different one (with and without the arms 0/1, which SafeLearner rewrites)
     pool = [rng.sample([0, 1, 2, 3, 4, 5], rng.choice([2, 3])) for _ in range(2)] + [rng.sample([2, 3, 4, 5], rng.choice([2, 3]))] if rng.random() < 0.5 else None
     some_none = rng.random() < 0.2      # logged data with a missing propensity here and there (counts as 1)
+    cat = rng.random() < 0.15      # categorical actions: the evaluator finalises them to one-hot codes before the learner sees them
+    if cat:
+        from coba.primitives import Categorical
+        LV = ["x", "y", "z", "w"]
     for i in range(n):
         acts = list(rng.choice(pool)) if pool else rng.sample([1, 2, 3, 4, 5], rng.choice([2, 3, 4]))
+        if cat: acts = [Categorical(l, LV) for l in rng.sample(LV, rng.choice([2, 3]))]
         rw = [rng.choice([0, 0.25, 0.5, 1]) for _ in acts]
         j = rng.randrange(len(acts))
         r = {"context": [i, 1] if ck == "dense" else ({"a": i} if ck == "sparse" else None), "actions": acts,
@@ -149,7 +155,7 @@ def run(ctx):
         if "context" not in present: present.append("context")
         rows = gen_env(rng, present)
         batched = rng.random() < 0.25
-        fmt = rng.choice(["AP", "A"]); kw = rng.random() < 0.3
+        fmt = rng.choice(["AP", "AP", "A", "AP0"]); kw = rng.random() < 0.3
         lrn = Rec(fmt, hs, kw)
         case = dict(learn=learn, eval=ev, record=record, has_score=hs, fields=present, n=len(rows), batched=batched, format=fmt, kwargs=kw,
                     rows=[{k: (v if not callable(v) else "DiscreteReward") for k, v in r[0].items()} for r in rows][:3])
@@ -180,18 +186,20 @@ def run(ctx):
         ok = True
         continue_checks = True
         if continue_checks:
-            if predicts and [(c[1], c[2]) for c in pcalls] != [(r[0].get("context"), r[0].get("actions")) for r in rows]:
+            is_cat = bool(rows) and bool(rows[0][0].get("actions")) and isinstance(rows[0][0]["actions"][0], str)
+            shown = (lambda A: [a.as_onehot for a in A]) if is_cat else (lambda A: A)
+            if predicts and [(c[1], c[2]) for c in pcalls] != [(r[0].get("context"), shown(r[0].get("actions"))) for r in rows]:
                 ctx.fail(["evaluate", "predict-trace"], "predict calls %s do not follow the environment order/content" % pcalls[:3], case); continue
             if not predicts and pcalls: ctx.fail(["evaluate", "unexpected-predict"], "predict was called although the mode does not need it", case); continue
             if learn:
                 if len(lcalls) != len(rows): ctx.fail(["evaluate", "learn-count"], "%d learn calls for %d interactions" % (len(lcalls), len(rows)), case); continue
                 for k, ((r, rw, j), lc) in enumerate(zip(rows, lcalls)):
-                    if learn == "off": exp = (r.get("context"), r["action"], r["reward"], r.get("probability"), {})
+                    if learn == "off": exp = (r.get("context"), r["action"].as_onehot if is_cat else r["action"], r["reward"], r.get("probability"), {})
                     else:
-                        a = pcalls[k][2][(k + 1) % len(pcalls[k][2])]
-                        p = 0.5 if fmt == "AP" else None
-                        if learn == "on": rr = rw[r["actions"].index(a)]
-                        else: rr = (r["reward"] / (r.get("probability") or 1)) if a == r["action"] else 0
+                        ai = (k + 1) % len(pcalls[k][2]); a = pcalls[k][2][ai]
+                        p = 0.5 if fmt == "AP" else (0.0 if (k + 1) % 3 == 0 else 0.5) if fmt == "AP0" else None
+                        if learn == "on": rr = rw[ai]
+                        else: rr = (r["reward"] / (r.get("probability") or 1)) if ai == j else 0
                         exp = (r.get("context"), a, rr, p, ({"k": k + 1} if kw else {}))
                     if (lc[1], lc[2], lc[4], lc[5]) != (exp[0], exp[1], exp[3], exp[4]) or abs(lc[3] - exp[2]) > 1e-9:
                         ctx.fail(["evaluate", "learn-trace", "%s/%s" % (learn, ev)], "learn call #%d was %s, expected %s" % (k, lc[1:], exp), case); ok = False; break
@@ -203,18 +211,19 @@ def run(ctx):
             for k, ((r, rw, j), o) in enumerate(zip(rows, out)):
                 if o.get("extra") != r["extra"]: ctx.fail(["evaluate", "extra-field"], "row %d carries extra=%r, the interaction had %r" % (k, o.get("extra"), r["extra"]), case); ok = False; break
                 if ev and predicts:
-                    a = pcalls[k][2][(k + 1) % len(pcalls[k][2])]
+                    ai = (k + 1) % len(pcalls[k][2]); a = pcalls[k][2][ai]
                     if "action" in record and o.get("action") != a: ctx.fail(["evaluate", "row-action"], "row %d action %r, the learner chose %r" % (k, o.get("action"), a), case); ok = False; break
-                    if "probability" in record and fmt == "AP" and o.get("probability") != 0.5: ctx.fail(["evaluate", "row-probability"], "row %d probability %r" % (k, o.get("probability")), case); ok = False; break
+                    ep = 0.5 if fmt == "AP" else (0.0 if (k + 1) % 3 == 0 else 0.5) if fmt == "AP0" else None
+                    if "probability" in record and ep is not None and o.get("probability", "absent") != ep: ctx.fail(["evaluate", "row-probability"], "row %d probability %r, the learner stated %r" % (k, o.get("probability", "absent"), ep), case); ok = False; break
                     if "reward" in record:
-                        rr = rw[r["actions"].index(a)] if ev == "on" else ((r["reward"] / (r.get("probability") or 1)) if a == r["action"] else 0)
+                        rr = rw[ai] if ev == "on" else ((r["reward"] / (r.get("probability") or 1)) if ai == j else 0)
                         if abs(o.get("reward", 1e9) - rr) > 1e-9: ctx.fail(["evaluate", "row-reward", str(ev)], "row %d reward %r, expected %r" % (k, o.get("reward"), rr), case); ok = False; break
                 if ev == "ips" and not predicts and "reward" in record:
                     rr = 0.25 * r["reward"] / (r.get("probability") or 1)
                     if abs(o.get("reward", 1e9) - rr) > 1e-9: ctx.fail(["evaluate", "row-reward", "ips-score"], "row %d reward %r, expected score*ips = %r" % (k, o.get("reward"), rr), case); ok = False; break
             if ok: ctx.sample(dict(case=case, rows=out[:2], calls=[c[:3] for c in lrn.calls[:4]]), cap=4)
             # ---- the whole call trace and the rows against the extracted loop model (every mode; un-batched, all fields present)
-            if ok and not batched and set(present) == set(all_fields) and os.path.exists(os.path.join(VERIF, "coq", "theories", "C06", "ModelLoop.v")):
+            if ok and not batched and fmt != "AP0" and not is_cat and set(present) == set(all_fields) and os.path.exists(os.path.join(VERIF, "coq", "theories", "C06", "ModelLoop.v")):
                 from fractions import Fraction as Fr
                 fq = lambda v: s_q(Fr(v))
                 cidx = lambda c: -1 if c is None else (c[0] if isinstance(c, list) else c["a"])
